@@ -44,6 +44,10 @@ def run(ctx):
     control_chars_language(ctx, "R3")
     n = NM.Norm(ctx)
     U.rule_qsl(ctx, "R5")
+    Q.rule_qsl_mappers(ctx, "R5m")
+    U.rule_punycode(ctx, "R5i")
+    from .c20 import protocol_language
+    protocol_language(ctx, "R5p")
     default_protocol(ctx, "R6", n)
     redirection_sees_decoded_letters(ctx, "R8")
     Q.rule_space(ctx, "R9")
